@@ -29,6 +29,7 @@ package main
 import (
 	"bufio"
 	"context"
+	crand "crypto/rand"
 	"encoding/json"
 	"fmt"
 	"os"
@@ -48,6 +49,7 @@ import (
 
 	ipns "github.com/ipfs/go-ipns"
 	libp2p "github.com/libp2p/go-libp2p"
+	crypto "github.com/libp2p/go-libp2p-core/crypto"
 	host "github.com/libp2p/go-libp2p-core/host"
 	peer "github.com/libp2p/go-libp2p-core/peer"
 	peerstore "github.com/libp2p/go-libp2p-core/peerstore"
@@ -205,8 +207,12 @@ type node struct {
 }
 
 // newNode makes a libp2p host on loopback TCP the way the crdt consensus tests do.
-func newNode(full bool) (*node, error) {
-	h, err := libp2p.New(ctx, libp2p.ListenAddrStrings("/ip4/127.0.0.1/tcp/0"))
+func newNode(ctx context.Context, full bool) (*node, error) {
+	priv, _, err := crypto.GenerateEd25519Key(crand.Reader)
+	if err != nil {
+		return nil, err
+	}
+	h, err := libp2p.New(ctx, libp2p.Identity(priv), libp2p.ListenAddrStrings("/ip4/127.0.0.1/tcp/0"))
 	if err != nil {
 		return nil, err
 	}
@@ -222,8 +228,6 @@ func newNode(full bool) (*node, error) {
 		dual.DHTOption(dht.NamespacedValidator("pk", record.PublicKeyValidator{})),
 		dual.DHTOption(dht.NamespacedValidator("ipns", ipns.Validator{KeyBook: h.Peerstore()})),
 		dual.DHTOption(dht.Concurrency(10)),
-		dual.DHTOption(dht.RoutingTableRefreshPeriod(200*time.Millisecond)),
-		dual.DHTOption(dht.RoutingTableRefreshQueryTimeout(100*time.Millisecond)),
 	)
 	if err != nil {
 		h.Close()
@@ -257,6 +261,8 @@ type world struct {
 	raftC   *raft.Consensus
 	seq     int
 	scratch string
+	cancel  context.CancelFunc
+	raftDir string
 }
 
 func (w *world) pid(i int) peer.ID { return w.ids[i] }
@@ -287,18 +293,22 @@ var unregistered = []endpoint{
 	{svc: "PinTracker", method: "Pin"}, {svc: "cluster", method: "ID"},
 }
 
+var worldSeq int
+
 func newWorld() (*world, error) {
-	w := &world{scratch: os.Getenv("VERIF_SCRATCH")}
+	ctx, cancel := context.WithCancel(ctx)
+	worldSeq++
+	w := &world{scratch: os.Getenv("VERIF_SCRATCH"), cancel: cancel}
 	if w.scratch == "" {
 		w.scratch = filepath.Join(os.TempDir(), "verif-C07")
 	}
 	var err error
-	if w.server, err = newNode(true); err != nil {
+	if w.server, err = newNode(ctx, true); err != nil {
 		return nil, err
 	}
 	w.ids = append(w.ids, w.server.h.ID())
 	for i := 0; i < nClients; i++ {
-		c, err := newNode(false)
+		c, err := newNode(ctx, false)
 		if err != nil {
 			return nil, err
 		}
@@ -324,11 +334,13 @@ func newWorld() (*world, error) {
 func (w *world) close() {
 	if w.raftC != nil {
 		w.raftC.Shutdown(ctx)
+		os.RemoveAll(w.raftDir)
 	}
 	for _, c := range w.clients {
 		c.h.Close()
 	}
 	w.server.h.Close()
+	w.cancel()
 }
 
 // errConfig: the component rejected a configuration the harness considers valid
@@ -379,8 +391,9 @@ func (w *world) consensusFor(c config) (ipfscluster.Consensus, func(), error) {
 		if w.raftC == nil {
 			cfg := &raft.Config{}
 			cfg.Default()
-			cfg.DataFolder = filepath.Join(w.scratch, fmt.Sprintf("raft-%d", os.Getpid()))
+			cfg.DataFolder = filepath.Join(w.scratch, fmt.Sprintf("raft-%d-%d", os.Getpid(), worldSeq))
 			os.RemoveAll(cfg.DataFolder)
+			w.raftDir = cfg.DataFolder
 			rc, err := raft.NewConsensus(w.server.h, cfg, inmem.New(), false)
 			if err != nil {
 				return nil, nil, err
@@ -391,7 +404,7 @@ func (w *world) consensusFor(c config) (ipfscluster.Consensus, func(), error) {
 		cons = w.raftC
 	case "crdt":
 		w.seq++
-		cc, err := newCRDT(w.server, fmt.Sprintf("c07-%d-%d", os.Getpid(), w.seq), w.trustedStrings(c.raw))
+		cc, err := newCRDT(w.server, fmt.Sprintf("c07-%d-%d-%d", os.Getpid(), worldSeq, w.seq), w.trustedStrings(c.raw))
 		if err != nil {
 			return nil, nil, err
 		}
@@ -630,12 +643,15 @@ func (w *world) runConfig(out *common.Out, c config, rpcLines bool, rawEvery int
 			emit(out, line, w.call(s, caller, ep))
 			n++
 			if caller > 0 && rawEvery > 0 && n%rawEvery == 0 {
+				// 0xc1 is the one byte msgpack never uses: whatever follows, no argument type decodes it
+				// (random bytes alone could decode as an empty map, i.e. a valid struct{} argument)
 				var g []byte
 				if r.Bool() {
 					g = make([]byte, r.Range(1, 24))
 					for i := range g {
 						g[i] = byte(r.Next())
 					}
+					g[0] = 0xc1
 				}
 				emit(out, line, w.rawCall(caller, ep, g))
 			}
@@ -926,7 +942,7 @@ func main() {
 		out.Line("# inconclusive C07 auth (world setup: %v)", err)
 		return
 	}
-	defer w.close()
+	defer func() { w.close() }()
 	if args.Extra["stdin"] == "1" {
 		w.replayAuth(out)
 		return
@@ -940,6 +956,14 @@ func main() {
 	for k := 0; k < n; k++ {
 		if args.Only >= 0 && k != args.Only {
 			continue
+		}
+		if w.seq >= 150 {
+			// a shut-down crdt component leaves memory and background work behind on its host: start over
+			w.close()
+			if w, err = newWorld(); err != nil {
+				out.Line("# inconclusive C07 auth (world setup: %v)", err)
+				return
+			}
 		}
 		r := root.Fork(uint64(k))
 		c := genConfig(r, w, k)
